@@ -1226,6 +1226,12 @@ impl Ty {
                     uid: expected_uid, ..
                 },
             ) => found_uid == expected_uid,
+            // values of other nominal types (named structs, enums and their variants) are never
+            // implicitly converted into a distinct, even if its underlying type would accept them
+            (
+                Ty::ConcreteStruct { .. } | Ty::Enum { .. } | Ty::EnumVariant { .. },
+                Ty::Distinct { .. },
+            ) => false,
             (found, Ty::Distinct { sub_ty: ty, .. }) => found.can_fit_into(ty),
             (
                 Ty::EnumVariant { uid: found_uid, .. },
@@ -1754,6 +1760,11 @@ impl Ty {
             (Ty::ConcreteStruct { .. } | Ty::AnonStruct { .. }, Ty::ConcreteStruct { .. }) => {
                 self.can_fit_into(expected)
             }
+            // see `can_fit_into`, other nominal types are never implicitly converted into a distinct
+            (
+                Ty::ConcreteStruct { .. } | Ty::Enum { .. } | Ty::EnumVariant { .. },
+                Ty::Distinct { .. },
+            ) => false,
             (found, Ty::Distinct { sub_ty: ty, .. }) => found.is_weak_replaceable_by(ty),
             (
                 Ty::Optional {
